@@ -4,6 +4,7 @@ Driver for C19. Ops (kept in step with go/internal/c19):
 
 * `read <hex>` — feed the bytes to the frame reader until it fails:
   `<frame> <frame> … end=<eof|ueof|unknown|panic>`
+* `m <msg>` … `run` — same as `log`, the messages given one per op
 * `log <msg> <msg> …` — the messages are logged concurrently; the model writes the frames of the
   messages one message after the other (one of the interleavings; by
   `interleaved_messages_recovered` the projection below does not depend on which), reads the
@@ -14,8 +15,9 @@ Driver for C19. Ops (kept in step with go/internal/c19):
 namespace Martian.Drv.C19
 open Martian Martian.Marbl
 
-abbrev St := Unit
-def init : St := ()
+/-- messages queued by `m` ops for the next `run` -/
+abbrev St := List String
+def init : St := []
 
 def fnv (bs : Bytes) : UInt64 :=
   bs.foldl (fun h b => (h ^^^ b.toUInt64) * 1099511628211) 14695981039346656037
@@ -148,6 +150,8 @@ def step (s : St) (toks : List String) : St × String :=
   match toks with
   | ["read", h] => (s, match unhex h with | some b => readOp b | none => "bad-op")
   | "log" :: ms => (s, if ms.isEmpty then "bad-op" else logOp ms)
+  | ["m", tok] => (s ++ [tok], "queued")                  -- same as `log`, one message per op (shrinks better)
+  | ["run"] => ([], if s.isEmpty then "bad-op" else logOp s)
   | _ => (s, "bad-op")
 
 end Martian.Drv.C19
